@@ -96,6 +96,32 @@ func init() {
 							ids, _, err := st.Store.QueryIds(tx, "")
 							return ids, err
 						}
+						queryDesc := func(st *schema.St) ([]string, error) {
+							ids, _, err := st.Store.QueryIds(tx, "true sort by id desc")
+							rev := make([]string, len(ids))
+							for i, id := range ids {
+								rev[len(ids)-1-i] = id
+							}
+							return rev, err
+						}
+						querySorted := func(st *schema.St) ([]string, error) {
+							ids, _, err := st.Store.QueryIds(tx, "true sort by title desc, grade")
+							out := append([]string{}, ids...)
+							sort.Strings(out)
+							return out, err
+						}
+						queryPaged := func(st *schema.St) ([]string, error) {
+							// two pages must concatenate to the full answer
+							a, n1, err := st.Store.QueryIds(tx, "true limit 2")
+							if err != nil {
+								return nil, err
+							}
+							b, n2, err := st.Store.QueryIds(tx, "true skip 2 limit none")
+							if n1 != n2 {
+								err = fmt.Errorf("counts differ between pages: %d vs %d", n1, n2)
+							}
+							return append(a, b...), err
+						}
 						iter := func(st *schema.St) ([]string, error) {
 							return idsOf(st.Store.IterateIds(tx, ast.BoolNodeTrue)), nil
 						}
@@ -105,6 +131,9 @@ func init() {
 						for _, qq := range []q{
 							{kmodel.Emps, "QueryIds(true)", all, query}, {kmodel.Emps, "QueryIds()", all, queryEmpty}, {kmodel.Emps, "IterateIds", all, iter}, {kmodel.Emps, "IterateValidIds", all, iterValid},
 							{kmodel.Mgrs, "QueryIds(true)", mgrs, query}, {kmodel.Mgrs, "QueryIds()", mgrs, queryEmpty}, {kmodel.Mgrs, "IterateIds", mgrs, iter}, {kmodel.Mgrs, "IterateValidIds", mgrs, iterValid},
+							{kmodel.Emps, "QueryIds(sort by id desc)", all, queryDesc}, {kmodel.Mgrs, "QueryIds(sort by id desc)", mgrs, queryDesc}, {kmodel.Ctrs, "QueryIds(sort by id desc)", all, queryDesc},
+							{kmodel.Emps, "QueryIds(sort by title desc, grade)", all, querySorted}, {kmodel.Mgrs, "QueryIds(sort by title desc, grade)", mgrs, querySorted}, {kmodel.Ctrs, "QueryIds(sort by title desc, grade)", all, querySorted},
+							{kmodel.Emps, "QueryIds(paged)", all, queryPaged}, {kmodel.Mgrs, "QueryIds(paged)", mgrs, queryPaged}, {kmodel.Ctrs, "QueryIds(paged)", all, queryPaged},
 							{kmodel.Ctrs, "QueryIds(true)", all, query}, {kmodel.Ctrs, "QueryIds()", all, queryEmpty}, {kmodel.Ctrs, "IterateIds", all, iter}, {kmodel.Ctrs, "IterateValidIds", ctrs, iterValid},
 						} {
 							got, err := qq.got(e.Sc.St(qq.store))
